@@ -89,8 +89,25 @@ Definition parse_nat (s : list N) : pres (N * list N) :=
   | (D0 _, _) => PErr                      (* "01": Python stops after 0 -> extra data *)
   | (u, rest) => POk (N.of_uint u, rest)
   end.
+(* json.scanner NUMBER_RE: an optional minus, then 0 or a non-zero digit followed by
+   digits; then an optional fraction ("." and at least one digit) and an optional
+   exponent (e or E, an optional sign, at least one digit).  Anything else after the
+   integer part leaves the integer as the value and the rest as extra data. *)
 Definition starts_float (s : list N) : bool :=
-  match s with c :: _ => (c =? 46) || (c =? 101) || (c =? 69) | [] => false end.
+  match s with
+  | [] => false
+  | c :: r =>
+      if c =? 46 then match r with d :: _ => is_digit d | [] => false end
+      else if (c =? 101) || (c =? 69) then
+        match r with
+        | [] => false
+        | d :: r' =>
+            if is_digit d then true
+            else if (d =? 43) || (d =? 45) then match r' with d2 :: _ => is_digit d2 | [] => false end
+            else false
+        end
+      else false
+  end.
 Definition parse_number (s : list N) : pres (pv * list N) :=
   match s with
   | [] => PErr
